@@ -2,6 +2,7 @@ import NitroVerif.Proto
 import NitroVerif.Drv.Str
 import NitroVerif.Drv.Fmt
 import NitroVerif.Drv.FV
+import NitroVerif.Drv.Hash
 
 /-!
 `nvdriver model`  : one case per line on stdin, the model's answer per line on stdout.
@@ -15,6 +16,7 @@ def modelLine (line : String) : String :=
   | "str" :: rest => Drv.Str.model rest
   | "fmt" :: rest => Drv.Fmt.model rest
   | "fv" :: rest => Drv.FV.model rest
+  | "hash" :: rest => Drv.Hash.model rest
   | _ => "bad-op"
 
 def judgeLine (line : String) : String :=
@@ -24,6 +26,7 @@ def judgeLine (line : String) : String :=
     | "str" :: rest => Drv.Str.judge rest ans
     | "fmt" :: rest => Drv.Fmt.judge rest ans
     | "fv" :: rest => Drv.FV.judge rest ans
+    | "hash" :: rest => Drv.Hash.judge rest ans
     | _ => "bad-op"
   | _ => "bad-op"
 
